@@ -298,20 +298,34 @@ def check_no_wrap_adds(ctx, rule, fn, domains, label=None, touching=None, signed
         if n.kind == "DeclRefExpr" and n.d["d"] in lz:
             return n.d["d"]
         return None
+    def arith_refs(e):
+        """declarations an expression is computed from by arithmetic: what a call of a function that is not folded in (the
+        policy's map) returns is a value of its own, not arithmetic on its arguments"""
+        out, work = [], [e]
+        while work:
+            x = work.pop()
+            if x.is_call() and not x.d.get("inlined"):
+                continue
+            if x.kind == "DeclRefExpr":
+                out.append(x.d.get("d"))
+            work.extend(x.children)
+            if x.d.get("inlined") and isinstance(x.d.get("rets"), list):
+                work.extend(fn.node(r_) for r_ in x.d["rets"])
+        return out
     dep = set(domains)
     grew = True
     while grew:
         grew = False
         for did, init in lz.items():
-            if did not in dep and any(x.kind == "DeclRefExpr" and x.d.get("d") in dep for x in init.walk()):
+            if did not in dep and any(d_ in dep for d_ in arith_refs(init)):
                 dep.add(did)
                 grew = True
         for did, init_id in bm.items():
-            if did not in dep and any(x.kind == "DeclRefExpr" and x.d.get("d") in dep for x in fn.node(init_id).walk()):
+            if did not in dep and any(d_ in dep for d_ in arith_refs(fn.node(init_id))):
                 dep.add(did)
                 grew = True
     adds = [n for n in fn.events() if n.kind == "BinaryOperator" and n.op == "+" and (n.get("sgn") is False or signed) and n.get("bits")
-            and any(x.kind == "DeclRefExpr" and x.d.get("d") in dep for x in n.walk())]
+            and any(d_ in dep for d_ in arith_refs(n))]
     adds.sort(key=lambda n: n.loc)
     res = []
     for i, a in enumerate(adds):
